@@ -65,6 +65,13 @@ theorem floor_bound (c : Cfg) (s : St) (op : Op) (R : Reach c s) (L : Legal c s 
     effFloor (step c s op).1 ≤ max (effFloor s) (allowed c s op) :=
   (step_facts op (inv_reach R) L).floorLe
 
+/-- Whole histories: after ANY legal history the floor is at most the highest `min(L1 head, local head) -
+retained` that some event (or the migration) of that history was entitled to, and the durable floor has
+not moved down. -/
+theorem floor_bound_history (c : Cfg) (s : St) (R : Reach c s) (ops : List Op) (L : LegalRun c s ops) :
+    effFloor (run c s ops) ≤ max (effFloor s) (maxAllowed c s ops) ∧ lo s.db ≤ lo (run c s ops).db :=
+  floor_run_le ops s R L
+
 /-- The carve-out arithmetic: the `uint64` code `if e > lag { e - lag }` never underflows, and a header
 is deleted iff it is at least `BlockHashLag` below the range end. -/
 theorem header_carve_out (e : UInt64) (m : Nat) :
